@@ -22,19 +22,53 @@ def countEls : VSpec → Nat
   | .el _ _ _ children => 1 + countElsList children
   | .dynView v => countElsList v
   | .fragment v => countElsList v
+  | .batch2 _ a b => countElsList a + countElsList b
   | _ => 0
 def countElsList : VList → Nat
   | .nil => 0
   | .cons v rest => countEls v + countElsList rest
 end
 
-/-- C12 (keys): building any view from registry state `k` in suspense scope `s` stamps exactly the
-keys `(s,k), (s,k+1), …` — dense, duplicate-free, in document order — and leaves the counter at
-`k + number of elements`. -/
+mutual
+/-- the view contains no `batch2` form (anywhere). `batch2` hands out keys in CREATION order (the region
+whose flag was written last first), which differs from document order; every statement that speaks of
+the document (pre-)order of keys is restricted to views satisfying this predicate. -/
+def NoBatch2 : VSpec → Bool
+  | .el _ _ _ children => NoBatch2List children
+  | .dynView v => NoBatch2List v
+  | .fragment v => NoBatch2List v
+  | .batch2 _ _ _ => false
+  | .text _ => true
+  | .dynText _ => true
+def NoBatch2List : VList → Bool
+  | .nil => true
+  | .cons v rest => NoBatch2 v && NoBatch2List rest
+end
+
+/-- C12 (keys), document order: building a `batch2`-free view from registry state `k` in suspense scope
+`s` stamps exactly the keys `(s,k), (s,k+1), …` — dense, duplicate-free, in document order — and leaves
+the counter at `k + number of elements`.
+
+RESTRICTED (hypothesis `NoBatch2List v = true` added when `VSpec.batch2` entered the model): the first
+conjunct says that the keys read in document (pre-)order are `k, k+1, …`; that is false for
+`batch2 true a b` when both regions contain an element (B's elements take the smaller keys but come
+later in the document; see the `decide` examples in `Props/C12Keys.lean`). The order-independent content
+(counter arithmetic, density as a set, uniqueness) holds for ALL views: `C12_keys_all_statement`. -/
 def C12_keys_statement : Prop :=
-  ∀ (s : Nat) (v : VList) (k : Nat),
+  ∀ (s : Nat) (v : VList) (k : Nat), NoBatch2List v = true →
     keysOfList (buildList s v k).1 = (List.range (countElsList v)).map (fun i => (s, k + i))
     ∧ (buildList s v k).2 = k + countElsList v
+
+/-- C12 (keys), all views (including `batch2`): the counter advances by the number of elements; the keys
+of the rendered tree are a permutation of `(s,k), …, (s,k'-1)` (`k'` the end counter) — hence
+duplicate-free, and the SET of keys is exactly the interval from the start counter to the end counter. -/
+def C12_keys_all_statement : Prop :=
+  ∀ (s : Nat) (v : VList) (k : Nat),
+    (buildList s v k).2 = k + countElsList v
+    ∧ (keysOfList (buildList s v k).1).Perm ((List.range (countElsList v)).map (fun i => (s, k + i)))
+    ∧ (keysOfList (buildList s v k).1).Nodup
+    ∧ (∀ p : Nat × Nat, p ∈ keysOfList (buildList s v k).1
+        ↔ p.1 = s ∧ k ≤ p.2 ∧ p.2 < (buildList s v k).2)
 
 /-- C12 (determinism): the rendered string is a function of the view description alone — in
 particular two renders of the same description give the same bytes, whatever was rendered before. -/
